@@ -549,6 +549,13 @@ RETRY:
 		}
 		res := fullProof.MergeSparse(sparseProof)
 		allValidSignatures = allValidSignatures && res.AllValidSignatures
+		if !res.IncreasedSignatures {
+			// None of the offered signatures for this target verified
+			// (or they were all already present),
+			// so there is nothing to hand to the kernel for this target.
+			// In particular we must not create an empty proof for it.
+			continue
+		}
 		voteUpdates[blockHash] = tmi.VoteUpdate{
 			Proof:       fullProof,
 			PrevVersion: curPrevoteState.PrevoteBlockVersions[blockHash],
@@ -556,7 +563,14 @@ RETRY:
 	}
 
 	if len(voteUpdates) == 0 {
-		// We must have been unable to build the sign bytes or signature proof.
+		if !allValidSignatures {
+			// Nothing in the message could be added,
+			// and at least one signature failed verification.
+			return tmconsensus.HandleVoteProofsBadSignature
+		}
+
+		// We must have been unable to build the sign bytes or signature proof,
+		// or the signatures were added concurrently.
 		// Ignore the message for now.
 		return tmconsensus.HandleVoteProofsNoNewSignatures
 	}
@@ -910,6 +924,13 @@ RETRY:
 		}
 		res := fullProof.MergeSparse(sparseProof)
 		allValidSignatures = allValidSignatures && res.AllValidSignatures
+		if !res.IncreasedSignatures {
+			// None of the offered signatures for this target verified
+			// (or they were all already present),
+			// so there is nothing to hand to the kernel for this target.
+			// In particular we must not create an empty proof for it.
+			continue
+		}
 		voteUpdates[blockHash] = tmi.VoteUpdate{
 			Proof:       fullProof,
 			PrevVersion: curPrecommitState.PrecommitBlockVersions[blockHash],
@@ -917,7 +938,14 @@ RETRY:
 	}
 
 	if len(voteUpdates) == 0 {
-		// We must have been unable to build the sign bytes or signature proof.
+		if !allValidSignatures {
+			// Nothing in the message could be added,
+			// and at least one signature failed verification.
+			return tmconsensus.HandleVoteProofsBadSignature
+		}
+
+		// We must have been unable to build the sign bytes or signature proof,
+		// or the signatures were added concurrently.
 		// Ignore the message for now.
 		return tmconsensus.HandleVoteProofsNoNewSignatures
 	}
